@@ -135,6 +135,36 @@ PAT_PARAMETER_OR_STR = (
 REGEX_PARAMETER_OR_STR = re.compile(PAT_PARAMETER_OR_STR)
 
 
+def formatNumber(value):
+    """
+    Convert a value to a string, using plain decimal notation for numbers.
+
+    Python renders very small or very large floats in exponent notation (e.g. "3e-05"), which
+    firmware Gcode parsers do not understand (the "E" is read as an extruder parameter).
+
+    Parameters
+    ----------
+    value : any
+        The value to convert.
+
+    Returns
+    -------
+    string
+        The string representation of the value, never using exponent notation for numbers.
+    """
+    text = str(value)
+    if ("e" in text) or ("E" in text):
+        try:
+            text = "{:.15f}".format(value).rstrip("0")
+            if (text.endswith(".")):
+                text += "0"
+        except (TypeError, ValueError):
+            # Not a number, leave the string representation as is
+            pass
+
+    return text
+
+
 class GcodeParser(CommonMixin):  # pylint: disable=too-many-instance-attributes
     """
     Class for parsing lines of Gcode from a string.
@@ -511,7 +541,7 @@ class GcodeParser(CommonMixin):  # pylint: disable=too-many-instance-attributes
         if (paramsDict is not None):
             for key, val in paramsDict.items():
                 if (val is not None):
-                    key += str(val)
+                    key += formatNumber(val)
 
                 if (key):
                     vals.append(key)
